@@ -253,6 +253,8 @@ def run(ctx):
     for kind in KINDS:
         for pol in subsets():
             for vm in (RVMS[:2] if quick else RVMS):
+                if kind in ("nested2", "nested3") and vm.get("match") is True:
+                    continue          # (as above: a condition component, not an assignment — validation-mode: match does not lift its vote)
                 for off in ([rng.choice(OFF0)] if quick else OFF0):
                     zjobs.append((kind, pol, vm, set() if kind == "lasts" else off))
     if quick:
